@@ -356,6 +356,8 @@ def execute(plan, tier, seed, batch_seconds=60.0):
         'bounds': plan.bounds,
         'conditions': {'total': n_main, **counts},
         'conditions_by_kind': by_kind,
+        'lemmas_decided': [{'id': t['id'], 'verdict': results.get(t['id'], {}).get('state'), 'statement': results.get(t['id'], {}).get('lemma'),
+                            'notes': results.get(t['id'], {}).get('notes')} for t in plan.tasks if t['kind'] == 'lemma'][:40],
         'paths': paths, 'solver_queries': queries, 'solver_seconds': round(solver_s, 2),
         'stubs': plan.stubs, 'outside_the_claim': plan.outside,
         'exhaustive': bool(n_main and counts['confirmed'] == n_main),
